@@ -7,8 +7,8 @@ from spec import step_model as M
 
 PROPERTY = "C19"
 BOUNDS = {
-    "quick": "the 4 adjacent ordered pairs (1.4,1.5), (1.5,2.0), (2.0,2.1), (2.1,2.2) - equality is transitive and the stated restrictions are nested, so they imply the other 6 pairs, which the thorough tier runs explicitly: the same pre-state (0..1 node, id sym [10,99], sleeping/reboot symbolic, 0..1 child, 0..1 stored value, 0..1 parked command for a sleeping node, outstanding-request marker symbolic) is built in two real gateways and the same symbolic event is applied to both: received line (command per partition; internal type sym over the OLDER version's table; set/req/presentation type sym [0,9]; payload symbolic |p|<=1 or class list) or a send call (set / internal, buffering flag symbolic); outcome, error attributes, writes, registry and buffers must be equal. Exemptions exactly as stated: for a heartbeat response between {2.0,2.1} and 2.2 only the sleeping flag and the released commands may differ (outcome, errors, heartbeat value still compared); 1.x vs 2.x only with known node/child and without gateway-ready",
-    "thorough": "all 10 ordered pairs with the quick dimensions, plus the 4 adjacent pairs with ids sym [0,255] (every digit class)",
+    "quick": "the 4 adjacent ordered pairs (1.4,1.5), (1.5,2.0), (2.0,2.1), (2.1,2.2) - equality is transitive and the stated restrictions are nested, so they imply the other 6 pairs (the thorough tier runs 3 of those explicitly): the same pre-state (0..1 node, id sym [10,99], sleeping/reboot symbolic, 0..1 child, 0..1 stored value, 0..1 parked command for a sleeping node, outstanding-request marker symbolic) is built in two real gateways and the same symbolic event is applied to both: received line (command per partition; internal type sym over the OLDER version's table; set/req/presentation type sym [0,9]; payload symbolic |p|<=1 or class list) or a send call (set / internal, buffering flag symbolic); outcome, error attributes, writes, registry and buffers must be equal. Exemptions exactly as stated: for a heartbeat response between {2.0,2.1} and 2.2 only the sleeping flag and the released commands may differ (outcome, errors, heartbeat value still compared); 1.x vs 2.x only with known node/child and without gateway-ready",
+    "thorough": "the 4 adjacent pairs and 3 far pairs (1.4,2.0), (1.4,2.2), (2.0,2.2) with the quick dimensions, plus the 4 adjacent pairs with ids sym [0,255] (every digit class; presentation/set/req/stream/send)",
 }
 REALISED = ["internal type numbers inside the older table are one path per value"]
 STUBS = ["RecTransport", "protocol_14.time -> fixed clock", "symbolic maps", "__repr__ -> constant"]
@@ -27,14 +27,16 @@ def partitions(tier):
     todo = []
     for old, new in PAIRS:
         adjacent = VERSIONS.index(new) == VERSIONS.index(old) + 1
-        if q and not adjacent:
-            continue  # equality is transitive and the stated restrictions are nested: adjacent pairs imply the rest; thorough runs all 10
+        if not adjacent and (q or (old, new) not in (("1.4", "2.0"), ("1.4", "2.2"), ("2.0", "2.2"))):
+            continue  # equality is transitive and the stated restrictions are nested: adjacent pairs imply the rest; thorough adds 3 far pairs
         todo.append((old, new, base, ""))
         if not q and adjacent:
             todo.append((old, new, wide, "A"))
     for old, new, ids, tag in todo:
         new_name = new + tag
         for cmd in range(5):
+            if cmd == 3 and tag == "A":
+                continue
             if cmd == 3:
                 top = M.INTERNAL_MAX[old]
                 for lo_t in range(0, top + 1, 4):
